@@ -24,6 +24,8 @@ C10 (AST-level round trips) ops.
   J wpback <hex descriptor> <hex descriptor | ERR>              from_descriptor then into_descriptor is the identity
   J keyform <parser> <hex text> <accepted|rejected>             SPEC Spec/KeyGrammar.lean: a text in the BIP-380/389 key
                                          grammar (around a genuine key) must be accepted; other spellings are not judged
+  J keymulti <parser> <hex text> <accepted|rejected>            SPEC Spec/KeyGrammar.lean: a multipath step that repeats an
+                                         alternative must be REFUSED (BIP-389; regression for 3f2894f8), distinct ones accepted
   J numarg <position> <hex N> <accepted:v | rejected>           MODEL `Expr.parseNum` + the range of the position
                                          (after/older 1..2^31-1, thresh3/multi3 1..3, semthresh4 2..3, weight 1..2^32-1)
 -/
@@ -223,6 +225,16 @@ def opsDisplay (t : Tables) (kind op : String) (args : List String) : Option Str
     if Spec.KeyGrammar.valid secret s.toList && !excluded then
       pure (if verdict == "accepted" then "ok" else "bad:valid-key-expression-" ++ verdict)
     else pure "ok"
+  | "J", "keymulti", [parser, h, verdict] => do
+    -- regression judge for repo fix 3f2894f8: a repeated multipath alternative must be refused, pairwise
+    -- distinct alternatives (hardened vs unhardened counts as distinct) must be accepted
+    let s ← Text.unhex h
+    let secret := parser.startsWith "sec"
+    if Spec.KeyGrammar.repeatedMulti secret s.toList then
+      pure (if verdict == "rejected" then "ok" else "bad:repeated-multipath-alternative-" ++ verdict)
+    else if Spec.KeyGrammar.valid secret s.toList then
+      pure (if verdict == "accepted" then "ok" else "bad:valid-key-expression-" ++ verdict)
+    else pure "bad-case:neither-valid-nor-a-repeated-alternative"
   | "J", "numarg", [pos, h, verdict] => do
     let n ← Text.unhex h
     let expected := match numargSpec pos n.toList with
